@@ -196,10 +196,15 @@ def main():
                         continue
                     sr = run_conc(c, "shim", 0, values=rr["values"], choices=rr["choices"])
                     res["shim_runs"] += 1
-                    res["shim_problems"].extend(compare_records(rr, sr))
                     # a check failing under the shim is a shim problem only if the
                     # same check passed on the real torch with the same inputs
                     real_failed = {f.split(": ")[0] for f in rr.get("failures", [])}
+                    # ... and operands of a check that FAILED on the real torch may differ from the shim's
+                    # (a stub the shim uses, e.g. the known-factorisation QR, answers for the code as it
+                    # should be): that is the code's failure, reported through the real run, not a shim problem
+                    res["shim_problems"].extend(
+                        pr for pr in compare_records(rr, sr) if not any(pr.startswith(lab + "/") for lab in real_failed)
+                    )
                     for f in sr["failures"]:
                         if f.split(": ")[0] not in real_failed:
                             res["shim_problems"].append("shim-concrete check failed (but passed on the real torch): " + f)
